@@ -260,3 +260,40 @@ package core
 // a listed label is resolved under the name parsed from its key, and a descriptor that disagrees is an error
 //@ func getLabelAsync
 //@   send output#4 assert [named-as-key] $val.label.Name == apc.LabelName
+
+// ---- repository operations touch only their own repository's keys (C09) ----------------------------
+//@ func CreateRepo
+//@   requires stores != nil && getMetaStore(stores) != nil
+//@   ghost ms = getMetaStore(stores)
+//@   call ValidateRepo#1 assert [validates] $repo == repo
+//@   call Put#1 assert [create-if-absent] $noOverwrite == storage.NoOverWrite
+//@   call Put#1 assert [descriptor-key] $key == model.GetArchivePathToRepoDescriptor(repo.Name)
+//@   call Put#1 assert [meta-store] $self == ms
+//@   call Put#1 bind pe = $ret0
+//@   ensures [created-by-this-call] pe_set && pe == nil ==> !old(stored(ms, model.GetArchivePathToRepoDescriptor(repo.Name)))
+//@   ensures [success-means-written] ret0 == nil ==> pe_set && pe == nil
+//@   ensures [propagate] pe_set && pe != nil ==> ret0 != nil
+
+//@ func DeleteBundle
+//@   requires stores != nil && getMetaStore(stores) != nil
+//@   ghost ms = getMetaStore(stores)
+//@   call GetArchivePathToBundle#1 assert [of-bundle] $repo == repo && $bundleID == bundleID
+//@   call GetArchivePathToBundleFileList#1 assert [of-bundle] $repo == repo && $bundleID == bundleID && $index == i
+//@   call GetArchivePathToBundleFileList#2 assert [of-bundle] $repo == repo && $bundleID == bundleID && $index == i#2
+//@   call GetArchivePathToBundleFileList#1 bind fl1 = $ret0
+//@   call GetArchivePathToBundleFileList#2 bind fl2 = $ret0
+//@   call Delete#1 assert [own-file-list] fl1_set && $key == fl1 && $self == ms
+//@   call Delete#2 assert [own-file-list] fl2_set && $key == fl2 && $self == ms
+//@   call Delete#3 assert [own-descriptor] $key == pth && $self == ms
+//@   call DeleteLabel#1 assert [label-of-this-bundle] l.BundleID == bundleID && $repo == repo && $name == l.Name
+
+//@ func DeleteEntriesFromRepo
+//@   requires stores != nil && getMetaStore(stores) != nil
+//@   ghost ms = getMetaStore(stores)
+//@   call GetArchivePathToBundleFileList#1 assert [of-bundle] $repo == repo && $bundleID == bundleID && $index == i
+//@   call Get#1 assert [reads-that-list] $key == archivePathToBundleFileList
+//@   call Put#1 assert [rewrites-that-list] $key == archivePathToBundleFileList && $noOverwrite == storage.OverWrite && $self == ms
+//@   call Put#1 assert [only-if-modified] listModified
+//@   call Put#1 bind erp = $ret0
+//@   loop 2 step [rewritten-iff-modified] listModified ==> erp_set && erp == nil
+//@   loop 3 step [kept-or-dropped] (!entryDeleted ==> len(newBundleEntry.BundleEntries) == prev(len(newBundleEntry.BundleEntries)) + 1) && (entryDeleted ==> len(newBundleEntry.BundleEntries) == prev(len(newBundleEntry.BundleEntries)) && listModified)
